@@ -182,8 +182,13 @@ def check_wire(D: S.Dict, w, rec: Recorder):
     if (dec.code, dec.vendor_id, dec.flags, dec.payload) != (code, vendor, ref[4], data):
         rec.violation(f"C01/wire-decode/{tname}/fields", w,
                       f"{(dec.code, dec.vendor_id, dec.flags)} payload_equal={dec.payload == data}")
-    if not known and dec.value != data:
-        rec.violation("C01/wire-decode/untyped/value", w, "generic AVP value is not its payload")
+    if not known:
+        try:
+            v = dec.value
+        except Exception as e:
+            v = e
+        if v != data:
+            rec.violation("C01/wire-decode/untyped/value", w, f"generic AVP value is not its payload: {v!r}"[:300])
     try:
         again = dec.as_bytes()
         if again != ref:
@@ -192,6 +197,11 @@ def check_wire(D: S.Dict, w, rec: Recorder):
     except Exception as e:
         rec.violation(f"C01/wire-reencode-raises/{tname}/{type(e).__name__}", w, repr(e))
     if not known:
+        try:
+            Avp.new(code, vendor)
+            rec.violation("C01/new-unknown-accepted", w, "Avp.new() built an AVP for a (code, vendor) pair with no dictionary entry")
+        except ValueError:
+            pass
         # direct construction of an untyped AVP (the documented way for unknown codes)
         try:
             a = Avp(code, vendor, data, w["flags"] & 0x7f)
@@ -201,16 +211,25 @@ def check_wire(D: S.Dict, w, rec: Recorder):
         except Exception as e:
             rec.violation(f"C01/encode-raises/untyped/{type(e).__name__}", w, repr(e))
     nt = None if trivial_payload(data) else fp("w", code, vendor, ref[4], hash(data))
-    rec.case(nt, [f"wire:{'known' if known else 'unknown'}", f"len%4:{len(data) % 4}",
+    shadow = not known and any(c == code for c, _ in D.by_key)
+    rec.case(nt, [f"wire:{'known' if known else 'unknown'}"] + (["wire:vendor-shadow"] if shadow else []) + [ f"len%4:{len(data) % 4}",
                   f"wire-reserved:{bool(w['flags'] & 0x1f)}"],
              sample=lambda: {"wire_avp": w})
 
 
 @st.composite
 def wire_cases(draw, D: S.Dict):
-    if draw(st.booleans()):
+    k = draw(st.integers(0, 5))
+    if k < 2:
         e = draw(st.sampled_from(D.entries))
         code, vendor = e[0], e[1]
+    elif k < 4:
+        # a dictionary code under another vendor (unknown vendor, known vendor
+        # without that code, or no vendor): must not borrow the other entry
+        e = draw(st.sampled_from(D.entries))
+        code = e[0]
+        vendor = draw(st.one_of(st.sampled_from(D.vendors + [0, 99999, 4491]),
+                                st.integers(1, (1 << 32) - 1)))
     else:
         code = draw(st.one_of(st.integers(0, (1 << 32) - 1),
                               st.sampled_from([0, 1, 263, (1 << 32) - 1, 99999999])))
@@ -329,7 +348,7 @@ def check_registered(D: S.Dict, rec: Recorder, seed: int, n: int):
                         check_spec(Dr, a, rec, cls_expected=cls, origin="registered")
                     strat = S.avp_spec(Dr, depth=0, max_depth=3, max_octets=64,
                                        entry=(code, vendor or 0, S_t), small=True)
-                    hyp.run_given(strat, body, n, derive_seed(PID, "reg", seed, i))
+                    hyp.run_given(strat, body, n, derive_seed(PID, "reg", seed, i), rec=rec)
                 finally:
                     if vendor is None:
                         AVP_DICTIONARY.pop(code, None)
@@ -374,14 +393,14 @@ def shard_main(shard, nshards, tier, scale):
     def body(a):
         check_spec(D, a, rec, origin="dict-random")
     hyp.run_given(S.avp_spec(D, depth=6, max_depth=6, max_octets=4096), body, n_scalar,
-                  derive_seed(PID, "scalar", shard))
+                  derive_seed(PID, "scalar", shard), rec=rec)
     hyp.run_given(st.sampled_from(D.grouped).flatmap(
         lambda e: S.avp_spec(D, depth=0, max_depth=6, max_octets=64, entry=e)),
-        body, n_tree, derive_seed(PID, "tree", shard))
+        body, n_tree, derive_seed(PID, "tree", shard), rec=rec)
 
     def wbody(w):
         check_wire(D, w, rec)
-    hyp.run_given(wire_cases(D), wbody, n_wire, derive_seed(PID, "wire", shard))
+    hyp.run_given(wire_cases(D), wbody, n_wire, derive_seed(PID, "wire", shard), rec=rec)
 
     if shard == 0:
         check_ood(D, rec, True)
@@ -399,7 +418,7 @@ def run(tier, scale=1.0):
     total_entries = len(D.entries)
     rec.extra["dictionary_entries"] = total_entries
     required = {f"type:{t}": 1 for t in D.by_type} | {f"len%4:{i}": 1 for i in range(4)} | {
-        "origin:registered": 1, "wire:unknown": 1, "time:era1": 1, "time:era0": 1,
+        "origin:registered": 1, "wire:unknown": 1, "wire:vendor-shadow": 1, "time:era1": 1, "time:era0": 1,
         "time:era0-last-hour": 1, "depth:6": 1}
     return finish(rec, tier=tier, level="exploration", rule=RULE, assumptions=ASSUME, t0=t0,
                   exhaustive=False, required_classes=required,
